@@ -1,6 +1,6 @@
 """C10 — operations are pure: results independent of call history and thread schedule."""
 from vcore import Case
-from dlib import Par, ALL, keygen, sign, crate
+from dlib import Par, ALL, keygen, sign, crate, fmt_arg
 import pyref
 
 RULE = ("histories mixing all six sets and all operations (seeded keygen, deterministic signing, verification incl. rejected and sibling-scheme inputs, "
@@ -38,8 +38,87 @@ def oracle(c, outs):
     return None
 
 
+def fnv(data):
+    h = 0xcbf29ce484222325
+    for x in data:
+        h ^= x
+        h = (h * 0x100000001b3) & 0xFFFFFFFFFFFFFFFF
+    return h
+
+
+def history_probe(rep, cov, tier, rng):
+    """Histories with EXPECTED results from the independent Python reference (so the baseline has no process or thread history
+    at all): low-level and API-level operations of all six sets, several keys per set, look-alike secret keys (same tr, one rho
+    bit flipped — a cache keyed on the wrong field would confuse them), API calls alternating contexts / absent context / pure /
+    pre-hash on the same thread (stale scratch would show), run in order on one thread twice and shuffled on 1..16 threads."""
+    from props.c07 import mprime
+    SETID = {n: i for i, n in enumerate(ALL)}
+    ops = []
+    def add(kind, cp, bs, expect_bytes, ctx=None, mode=0):
+        ops.append((kind, SETID[cp], mode, ctx, fnv(expect_bytes).to_bytes(8, "little"), bs))
+    for cp in ALL:
+        p = Par(cp)
+        for kidx in range(2):
+            seed = bytes(rng.randrange(256) for _ in range(32))
+            pk, sk = pyref.keygen(p, seed)
+            add(0, cp, [seed], pk + sk)
+            # look-alike secret key: same tr/key/s/t0, rho with one bit flipped
+            sk2 = bytes([sk[0] ^ (1 << rng.randrange(8))]) + sk[1:]
+            for m in (b"", bytes(rng.randrange(256) for _ in range(40))):
+                for skk in (sk, sk2, sk):
+                    sig = pyref.sign(p, skk, m, max_attempts=400)
+                    if sig is None: continue
+                    add(1, cp, [skk, m], sig)
+                    if skk is sk:
+                        add(2, cp, [sig, m, pk], b"\x01")
+                        bad = bytearray(sig); bad[rng.randrange(len(bad))] ^= 1 << rng.randrange(8)
+                        add(2, cp, [bytes(bad), m, pk], bytes([1 if pyref.verify(p, pk, m, bytes(bad)) else 0]))
+            # API level, alternating descriptors on the same thread
+            m = bytes(rng.randrange(256) for _ in range(20))
+            if p.mldsa:
+                descs = [("pure", b"context"), ("pure", None), ("sha256", b"c2"), ("pure", None), ("sha512", None), ("pure", b""), ("sha256", None), ("pure", None)]
+                for mode, ctx in descs:
+                    mp = mprime(mode, ctx, m)
+                    sig = pyref.sign(p, sk, mp, max_attempts=400)
+                    if sig is None: continue
+                    mi = {"pure": 0, "sha256": 1, "sha512": 2}[mode]
+                    add(3, cp, [sk, m], sig, ctx, mi)
+                    add(4, cp, [pk, m, sig], b"\x01", ctx, mi)
+            else:
+                sig = pyref.sign(p, sk, m)
+                add(3, cp, [sk, m], sig)
+                add(4, cp, [pk, m, sig], b"\x01")
+    plan = [(1, 1), (4, 1), (16, 1)] if tier == "quick" else [(t, 4) for t in (1, 2, 3, 4, 8, 16)]
+    total = 0
+    for threads, rounds in plan:
+        order = list(ops)
+        rng.shuffle(order)
+        args = [threads, rounds, rng.randrange(1 << 60)]
+        for kind, sid, mode, ctx, exp, bs in order:
+            args += [kind, sid, mode, ctx if ctx is not None else 0, exp, len(bs)] + list(bs)
+        for dev in (False, True) if threads == plan[0][0] else (False,):
+            r = crate([("history", "-", args)], dev=dev)[0]
+            case = {"fn": "history", "copy": "-", "args": [fmt if isinstance(fmt, str) else str(fmt) for fmt in ["threads=%d" % threads, "ops=%d" % len(order)]]}
+            if r is None:
+                rep.violation("history probe panicked (%d threads)" % threads, {"cases": [case]}, True); continue
+            total += 2 * r[0] + r[3]
+            if r[1] or r[4]:
+                k = r[2] % len(order) if r[2] >= 0 else r[5]
+                o = order[k]
+                what = {0: "seeded key generation", 1: "deterministic signing (core)", 2: "verification (core)", 3: "API signing", 4: "API verification"}[o[0]]
+                rep.violation("result depends on call history / other threads: %d in-order and %d interleaved results differ from the history-free expectation; "
+                              "first: %s, set %s, mode %d, ctx %s (operation %d of the history, %d threads)" %
+                              (r[1], r[4], what, ALL[o[1]], o[2], "None" if o[3] is None else o[3].hex()[:16], k, threads),
+                              {"cases": [case], "first_operation": {"kind": what, "set": ALL[o[1]], "args": [b.hex() for b in o[5]],
+                                                                   "ctx": None if o[3] is None else o[3].hex(), "mode": o[2]}}, True)
+    cov["history_ops_with_independent_expectation"] = len(ops)
+    cov["evaluations"] = cov.get("evaluations", 0) + total
+    cov["distinct_nontrivial"] = cov.get("distinct_nontrivial", 0) + len(ops)
+
+
 def extra(rep, cov, tier, rng):
     import subprocess
+    history_probe(rep, cov, tier, rng)
     calls = []
     plan = [(1, 2), (2, 2), (4, 2), (8, 2), (16, 2)] if tier == "quick" else [(t, 6) for t in (1, 2, 3, 4, 6, 8, 12, 16)]
     for threads, rounds in plan:
